@@ -6,7 +6,12 @@ C03 typing driver: JSON lines.
   {"op":"sound","sig":SIG,"query":Q,"events":[E..],"coll_types":[{"name","type"}]}
      -> {"type":text | null, "error":msg | null, "events":[{"event_ok":bool,"outcome":"fits"|"fault:<class>"|"ILL-TYPED <value>"}]}
         (`type_soundness` evaluated: the value `denote` yields on each event fits the type `typeOf` gives)
-  SIG = {"colls":[{"name":accessor,"cls":class}], "classes":[{"cls":class,"methods":[{"name":m,"type":T}]}],
+  {"op":"book","sig":SIG,"query":Q,"prefix":"atlas_xaod"|"cms_aod"|"cms_miniaod",
+   "terminal": null | {"arg": {"bare":s} | {"list":[..]} | {"scalar":true}, "tree":t, "file":f}}
+     -> {"names":[..],"types":[..],"tree":booked tree,"fill":tree of the fill,"treename":..,"filename":..} | {"error":msg}
+        (`C03.book` of C03/Labels.lean: the terminal model — which (terminal form, label argument) pairs are accepted,
+         what is booked and the returned descriptor; `null` = the implicit terminal)
+  SIG = {"colls":[{"name":accessor,"cls":class}], "classes":[{"cls":class,"methods":[{"name":m,"type":T, "tree": tree type text (optional)}]}],
          "fns":[{"name":f,"type":T}] (optional: user C++ functions and their declared return types)}
   T   = "int" | "float" | "double" | "bool" | "vec:" T | "obj:" class | "decl:" <C++ type text as the metadata declares it>
         (`Linq.declTy` decides which column type a declared text denotes: `const short` -> short, …)
@@ -14,6 +19,8 @@ Run: lake env lean --run FaxVerif/C03/TypingDriver.lean
 -/
 import FaxVerif.Cpp.Json
 import FaxVerif.Linq.Typing
+import FaxVerif.C03.Labels
+import FaxVerif.C03.Declared
 open Lean FaxVerif.Cpp FaxVerif.Linq
 
 partial def decTy (s : String) : Except String CTy :=
@@ -29,7 +36,14 @@ partial def decTy (s : String) : Except String CTy :=
 def decSig (j : Json) : Except String Sig := do
   let colls ← (← jarr j "colls").mapM fun c => do pure ((← jstr c "name"), (← jstr c "cls"))
   let meths ← (← jarr j "classes").mapM fun c => do
-    let ms ← (← jarr c "methods").mapM fun m => do pure ((← jstr m "name"), (← decTy (← jstr m "type")))
+    let ms ← (← jarr c "methods").mapM fun m => do
+      let ty ← jstr m "type"
+      match m.getObjVal? "tree" with
+      | .ok (.str tt) =>
+        -- a method declared with a tree type: `C03.methodColTy` (C03/Declared.lean) decides the column type
+        if ty.startsWith "decl:" then pure ((← jstr m "name"), FaxVerif.C03.methodColTy (ty.drop 5).toString (some tt))
+        else throw s!"a tree type on a method whose type is not a declared text: {ty}"
+      | _ => pure ((← jstr m "name"), (← decTy ty))
     pure ((← jstr c "cls"), ms)
   let fns ← match j.getObjVal? "fns" with
     | .ok (.arr a) => a.toList.mapM fun f => do pure ((← jstr f "name"), (← decTy (← jstr f "type")))
@@ -94,13 +108,39 @@ def handleSound (j : Json) : Except String Json := do
       Json.mkObj [("event_ok", Json.bool (eventOk S C)), ("outcome", Json.str outcome)]
     pure (Json.mkObj [("type", Json.str (showTy t)), ("error", Json.null), ("events", Json.arr outs.toArray)])
 
+def decLabelArg (j : Json) : Except String FaxVerif.C03.LabelArg :=
+  match j.getObjVal? "bare" with
+  | .ok (.str s) => pure (.bare s)
+  | _ => match j.getObjVal? "list" with
+    | .ok (.arr a) => do pure (.list (← a.toList.mapM (·.getStr?)))
+    | _ => match j.getObjVal? "scalar" with
+      | .ok _ => pure .scalar
+      | _ => throw "label argument must be {bare}|{list}|{scalar}"
+
+def handleBook (j : Json) : Except String Json := do
+  let S ← decSig (← j.getObjVal? "sig")
+  let q ← decQuery (← j.getObjVal? "query")
+  let pfx ← jstr j "prefix"
+  let t ← match j.getObjVal? "terminal" with
+    | .ok (.obj o) => do
+      let tj := Json.obj o
+      pure (FaxVerif.C03.Terminal.explicit (← decLabelArg (← tj.getObjVal? "arg")) (← jstr tj "tree") (← jstr tj "file"))
+    | _ => pure FaxVerif.C03.Terminal.implicit
+  match FaxVerif.C03.book S pfx q t with
+  | .error e => pure (Json.mkObj [("error", Json.str e)])
+  | .ok (b, d) => pure (Json.mkObj [
+      ("names", Json.arr (b.columns.map fun c => Json.str c.1).toArray),
+      ("types", Json.arr (b.columns.map fun c => Json.str (cppName c.2)).toArray),
+      ("tree", Json.str b.tree), ("fill", Json.str b.fill),
+      ("treename", Json.str d.treename), ("filename", Json.str d.filename)])
+
 def handle (line : String) : String :=
   match Json.parse line with
   | .error e => (Json.mkObj [("bad", e)]).compress
   | .ok j =>
     let r : Except String Json := do
       let op ← jstr j "op"
-      if op == "columns" then handleColumns j else if op == "sound" then handleSound j else throw s!"unknown op {op}"
+      if op == "columns" then handleColumns j else if op == "sound" then handleSound j else if op == "book" then handleBook j else throw s!"unknown op {op}"
     match r with
     | .ok j => j.compress
     | .error e => (Json.mkObj [("bad", e)]).compress
